@@ -2,6 +2,7 @@ package main
 
 import (
 	"fmt"
+	"runtime/debug"
 	"go/types"
 	"strings"
 	"unicode"
@@ -181,6 +182,7 @@ func lookupIntrinsicByName(eng *Engine, fn *ssa.Function) intrinsic {
 // buildIntrinsics resolves, once, the functions that are intercepted.
 func (eng *Engine) buildIntrinsics() {
 	eng.intr = map[*ssa.Function]intrinsic{}
+	bigIntr := bigIntrinsics()
 	all := allFunctions(eng.prog)
 	for fn := range all {
 		name := fn.String()
@@ -197,6 +199,10 @@ func (eng *Engine) buildIntrinsics() {
 			}
 		}
 		if in, ok := nativeIntrinsics[name]; ok {
+			eng.intr[fn] = in
+			continue
+		}
+		if in, ok := bigIntr[name]; ok {
 			eng.intr[fn] = in
 			continue
 		}
@@ -311,7 +317,7 @@ func (eng *Engine) runInit(pkg *ssa.Package) {
 		defer func() {
 			if r := recover(); r != nil {
 				if eng.verbose {
-					fmt.Printf("init of %s stopped: %v\n", pkg.Pkg.Path(), r)
+					fmt.Printf("init of %s stopped: %v\n%s\n", pkg.Pkg.Path(), r, debug.Stack())
 				}
 			}
 		}()
